@@ -25,7 +25,7 @@ import traceback
 sys.path.insert(0, os.path.dirname(os.path.dirname(os.path.abspath(__file__))))
 
 from lib import common  # noqa: E402
-from lib.procbmc import END, IDLE, P_KILL, P_RUN, X_TIMEOUT, Scenario, Unsupported, extract  # noqa: E402
+from lib.procbmc import P_KILL, P_RUN, X_TIMEOUT, Scenario, Unsupported, extract  # noqa: E402
 
 SRC = common.REPO_SRC
 
@@ -49,7 +49,7 @@ def SD(w):
 
 
 def scenarios(tier):
-    """(scenario, unrolling depth) per tier.  quick: depth 24/20/18 for 1/2/3 jobs; thorough: 36/30/26"""
+    """(scenario, unrolling depth) per tier.  quick: depth 24/20(22)/18 for 1/2/3 jobs; thorough: 36/30/26"""
     both = [
         Scenario("j1-main-wait", 1, [("M", [SUB(0), SD(True)])]),
         Scenario("j1-main-nowait", 1, [("M", [SUB(0), SD(False), RES(0)])]),
@@ -66,14 +66,14 @@ def scenarios(tier):
     ]
     more = [
         Scenario("j3-main-nowait", 3, [("M", [SUB(0), SUB(1), SUB(2), SD(False), RES(0), RES(1), RES(2)])]),
-        Scenario("j2-two-shutdowns", 2, [("A", [SD(False)]), ("B", [SD(False)]), ("C", [SUB(0), RES(0)])]),
+        Scenario("j1-two-shutdowns", 1, [("A", [SD(False)]), ("B", [SD(False)]), ("C", [SUB(0), RES(0)])]),
         Scenario("j1-direct-cancel", 1, [("A", [SUB(0), RES(0)]), ("B", [("cancel", 0), ("done", 0),
                                                                         ("exception", 0)])]),
         Scenario("j3-cb-nowait", 3, [("M", [SUB(0), SUB(1), SUB(2), SD(True)])], {0: [SD(False)]}),
         Scenario("j2-race-wait-nowait", 2, [("A", [SUB(0), RES(0)]), ("B", [SUB(1), SD(True)]), ("C", [SD(False)])]),
     ]
     depth = {"quick": {1: 24, 2: 20, 3: 18}, "thorough": {1: 36, 2: 30, 3: 26}}[tier]
-    override = {("thorough", "j3-main-nowait"): 32}
+    override = {("thorough", "j3-main-nowait"): 40, ("quick", "j2-earlyexit"): 22}
     scs = both if tier == "quick" else both + more
     return [(s, override.get((tier, s.name), depth[s.J])) for s in scs]
 
@@ -107,7 +107,7 @@ def predicates(e, m):
     return P
 
 
-QUERY_CLASS = {"deadlock": "result-returns", "safety": "exactly-once/timeout-surfaces/no-late-submit",
+QUERY_CLASS = {"residual": "residual", "deadlock": "result-returns", "safety": "exactly-once/timeout-surfaces/no-late-submit",
                "p3-toctou": "no-running-after-shutdown", "p3-early": "no-running-after-shutdown",
                "p3-other": "no-running-after-shutdown"}
 
@@ -175,38 +175,83 @@ def short(wit):
             else f"exit(job{s['job']})" for s in wit["steps"]]
 
 
-def unit_query(a):
-    sc_json, N, qname, tmo = a
+DEADLINE = [None]
+
+
+def budget(tmo):
+    """per-query time limit clipped to what is left of the tier's wall budget (<= 0: skip)"""
+    if DEADLINE[0] is None:
+        return tmo
+    return min(tmo, DEADLINE[0] - time.time() - 12)
+
+
+def one_query(m, e, P, sc_json, N, qname, tmo):
+    from lib.procenc import replay_job, run_replay
     t0 = time.time()
     out = {"kind": "query", "scenario": sc_json["name"], "N": N, "q": qname}
-    try:
-        from lib.procenc import Enc, replay_job, run_replay
-        m = extract(SRC, Scenario.from_json(sc_json))
-        e = Enc(m, N)
-        P = predicates(e, m)
-        st, mdl, dt, be = e.solve([P[qname]], timeout_s=tmo)
-        out.update(status=st, solver_s=dt, backend=be)
-        if st == "sat":
-            wit = e.witness(mdl)
-            job = replay_job(m, wit, SRC, probe=True)
+    tmo = budget(tmo)
+    if tmo < 8:
+        out.update(status="skipped", wall=0.0)
+        return out
+    st, vals, dt, be = e.solve([P[qname]], timeout_s=tmo, inproc_ms=1000 if qname in ("p3-toctou", "p3-early") else 0)
+    out.update(status=st, solver_s=dt, backend=be)
+    if st == "sat":
+        wit = e.witness(vals)
+        job = replay_job(m, wit, SRC, probe=True)
+        rep = run_replay(job)
+        ok, desc = reproduced(qname, m, wit, rep)
+        if not ok and rep.get("status") != "ok":   # one retry: a loaded machine can exceed the step time-out
             rep = run_replay(job)
             ok, desc = reproduced(qname, m, wit, rep)
-            if not ok and rep.get("status") != "ok":   # one retry: a loaded machine can exceed the step time-out
-                rep = run_replay(job)
-                ok, desc = reproduced(qname, m, wit, rep)
-            out.update(reproduced=ok, desc=desc, key=key_of(qname, m, wit), schedule=short(wit),
-                       witness={"scenario": sc_json, "N": N, "query": qname, "consts": wit["consts"],
-                                "steps": wit["steps"], "parked_init": wit["parked_init"], "final": wit["final"],
-                                "real_probe_state": rep.get("probe_state"), "real_alive": rep.get("probe_alive")})
-    except Unsupported as ex:
-        out.update(status="unsupported", reason=str(ex))
-    except Exception:
-        out.update(status="error", reason=traceback.format_exc()[-600:])
+        out.update(reproduced=ok, desc=desc, key=key_of(qname, m, wit), schedule=short(wit),
+                   witness={"scenario": sc_json, "N": N, "query": qname, "consts": wit["consts"],
+                            "steps": wit["steps"], "parked_init": wit["parked_init"], "final": wit["final"],
+                            "real_probe_state": rep.get("probe_state"), "real_alive": rep.get("probe_alive")})
     out["wall"] = time.time() - t0
     return out
 
 
-TV_VARIANTS = ["complete", "long-prefix", "timeout", "popen-raises", "rejected", "sigterm-ignored-kill",
+def unit_query(a):
+    """one obligation query, or (qname == 'residual') the disjunction of the obligations that are expected to hold:
+    `unsat` discharges all of them with one solver call, anything else falls back to one query per obligation"""
+    sc_json, N, qname, tmo = a
+    t0 = time.time()
+    outs = []
+    try:
+        import z3
+
+        from lib.procenc import Enc
+        sc = Scenario.from_json(sc_json)
+        m = extract(SRC, sc)
+        e = Enc(m, N)
+        P = predicates(e, m)
+        if qname != "residual":
+            return [one_query(m, e, P, sc_json, N, qname, tmo)]
+        parts = ["safety", "deadlock"] + (["p3-other"] if has_nowait(sc) else [])
+        t = budget(tmo)
+        st = "skipped"
+        if t >= 8:
+            st, vals, dt, be = e.solve([z3.Or([P[q] for q in parts])], timeout_s=t, inproc_ms=0)
+        if st == "unsat":
+            for i, q in enumerate(parts):
+                outs.append({"kind": "query", "scenario": sc_json["name"], "N": N, "q": q, "status": "unsat",
+                             "solver_s": dt if i == 0 else 0.0, "backend": be if i == 0 else None, "joint": True,
+                             "wall": time.time() - t0 if i == 0 else 0.0})
+            return outs
+        for q in parts:
+            outs.append(one_query(m, e, P, sc_json, N, q, tmo))
+        return outs
+    except Unsupported as ex:
+        return [{"kind": "query", "scenario": sc_json["name"], "N": N, "q": q, "status": "unsupported",
+                 "reason": str(ex), "wall": 0.0} for q in ([qname] if qname != "residual" else
+                                                           ["safety", "deadlock"] + (["p3-other"] if has_nowait(
+                                                               Scenario.from_json(sc_json)) else []))]
+    except Exception:
+        return [{"kind": "query", "scenario": sc_json["name"], "N": N, "q": qname, "status": "error",
+                 "reason": traceback.format_exc()[-600:], "wall": time.time() - t0}]
+
+
+TV_VARIANTS = ["long-prefix", "timeout", "popen-raises", "rejected", "sigterm-ignored-kill",
                "killed-then-result", "exit-races-cancel"]
 
 
@@ -215,6 +260,7 @@ def unit_scenario(a):
     sc_json, N, tmo = a
     t0 = time.time()
     out = {"kind": "scenario", "scenario": sc_json["name"], "N": N, "solver_s": 0.0}
+    tmo = max(10, budget(tmo))
     try:
         from lib.procenc import Enc
         m = extract(SRC, Scenario.from_json(sc_json))
@@ -227,6 +273,8 @@ def unit_scenario(a):
             st, mdl, dt, be = e.solve([P[q]], timeout_s=t)
             out[q] = st
             out["solver_s"] += dt
+            if q == "reach-full" and st == "sat":
+                out["complete"] = tv_replay(m, e.witness(mdl))
     except Unsupported as ex:
         out.update(status="unsupported", reason=str(ex))
     except Exception:
@@ -235,16 +283,27 @@ def unit_scenario(a):
     return out
 
 
+def tv_replay(m, wit):
+    from lib.procenc import compare_state, replay_job, run_replay
+    job = replay_job(m, wit, SRC, probe=False)
+    rep = run_replay(job)
+    if rep.get("status") != "ok":
+        rep = run_replay(job)
+    diffs = compare_state(m, wit["final"], rep["state"]) if rep.get("status") == "ok" else []
+    return dict(status="sat", steps=len(wit["steps"]), replay=rep.get("status"), reason=rep.get("reason", ""),
+                diffs=diffs, match=rep.get("status") == "ok" and not diffs, schedule=short(wit))
+
+
 def unit_tv(a):
-    """translation validation: a solver-generated schedule of the requested shape is executed on the real classes
-    under the deterministic scheduler; parked source lines after every step and the end state must match the model"""
-    sc_json, N, name, tmo = a
+    """translation validation: solver-generated schedules of several shapes are executed on the real classes under
+    the deterministic scheduler; parked source lines after every step and the end state must match the model"""
+    sc_json, N, names, tmo = a
     t0 = time.time()
-    out = {"kind": "tv", "scenario": sc_json["name"], "variant": name, "solver_s": 0.0}
+    out = {"kind": "tv", "scenario": sc_json["name"], "N": N, "variants": {}, "solver_s": 0.0}
     try:
         import z3
 
-        from lib.procenc import Enc, compare_state, replay_job, run_replay
+        from lib.procenc import Enc
         m = extract(SRC, Scenario.from_json(sc_json))
         e = Enc(m, N)
         P = predicates(e, m)
@@ -252,7 +311,6 @@ def unit_tv(a):
         J = m.J
         half = e.tid[N // 2] != e.STUTTER
         cons = {
-            "complete": lambda: [P["reach-full"]],
             "long-prefix": lambda: [e.tid[N - 1] != e.STUTTER],
             "timeout": lambda: [z3.Or([S[f"tf{j}"] for j in range(J)]), half],
             "popen-raises": lambda: [z3.Or([z3.And(e.consts[f"pfail{j}"], S[f"done{j}"]) for j in range(J)])],
@@ -263,19 +321,14 @@ def unit_tv(a):
                                                   for j in range(J)])],
             "exit-races-cancel": lambda: [z3.Or([z3.And(S[f"proc{j}"] == 2, z3.Not(S[f"early{j}"]), S["swept"],
                                                         S[f"done{j}"]) for j in range(J)]), half],
-        }[name]()
-        st, mdl, dt, be = e.solve(cons, timeout_s=min(tmo, 45))
-        out["solver_s"] += dt
-        out["status"] = st
-        if st == "sat":
-            wit = e.witness(mdl)
-            job = replay_job(m, wit, SRC, probe=False)
-            rep = run_replay(job)
-            if rep.get("status") != "ok":
-                rep = run_replay(job)
-            diffs = compare_state(m, wit["final"], rep["state"]) if rep.get("status") == "ok" else []
-            out.update(steps=len(wit["steps"]), replay=rep.get("status"), reason=rep.get("reason", ""),
-                       diffs=diffs, match=rep.get("status") == "ok" and not diffs, schedule=short(wit))
+        }
+        for name in names:
+            if budget(30) < 5:
+                out["variants"][name] = {"status": "skipped"}
+                continue
+            st, mdl, dt, be = e.solve(cons[name](), timeout_s=min(tmo, 30), inproc_ms=3000)
+            out["solver_s"] += dt
+            out["variants"][name] = tv_replay(m, e.witness(mdl)) if st == "sat" else {"status": st}
     except Unsupported as ex:
         out.update(status="unsupported", reason=str(ex))
     except Exception:
@@ -317,14 +370,21 @@ def unit_seq(a):
         with open(stub, "w") as f:
             f.write(STUB)
 
-        def gone(pid):
+        def gone(pid, wait_s=6.0):
+            # a killed process needs a moment to leave the process table on a loaded machine: poll before judging
             if pid is None or pid <= 0:
                 return True
-            try:
-                return psutil.Process(pid).status() in (psutil.STATUS_ZOMBIE, psutil.STATUS_DEAD)
-            except psutil.NoSuchProcess:
-                return True
-        cases = [("control-fast", "fast", 5.0, "0", unsat), ("control-no-timeout", "sleep", 0, "0.7", unsat),
+            t_end = time.time() + wait_s
+            while True:
+                try:
+                    if psutil.Process(pid).status() in (psutil.STATUS_ZOMBIE, psutil.STATUS_DEAD):
+                        return True
+                except psutil.NoSuchProcess:
+                    return True
+                if time.time() >= t_end:
+                    return False
+                time.sleep(0.1)
+        cases = [("control-fast", "fast", 0, "0", unsat), ("control-no-timeout", "sleep", 0, "0.7", unsat),
                  ("timeout", "sleep", 3.0, "60", unknown), ("timeout-ignores-sigterm", "ignore-term", 3.0, "60", unknown),
                  ("timeout-with-child", "child", 3.0, "60", unknown)]
         for i, (name, mode, tmo, slp, want) in enumerate(cases):
@@ -341,6 +401,9 @@ def unit_seq(a):
             pid = int(open(pidf).read()) if os.path.exists(pidf) else -1
             cpidf = str(ctx.dump_file) + ".cpid"
             cpid = int(open(cpidf).read()) if os.path.exists(cpidf) else None
+            # the grandchild is part of the obligation only if it existed well before the time limit fired (a child
+            # spawned while cancel() is listing the process tree is a real-OS race outside this sequential check)
+            child_counts = cpid is not None and tmo and os.path.getmtime(cpidf) < t0 + tmo - 1.0
             time.sleep(0.1)
             left = []
             for pr in psutil.process_iter(["cmdline", "status"]):
@@ -350,10 +413,17 @@ def unit_seq(a):
                         left.append(pr.pid)
                 except Exception:
                     pass
-            rec = {"case": name, "stub_started": pid > 0, "live_solver_processes_left": left, "result": str(so.result), "returncode": so.returncode, "seconds": round(dt, 2),
+            rec = {"case": name, "stub_started": pid > 0, "live_solver_processes_left": left,
+                   "result": str(so.result), "returncode": so.returncode, "seconds": round(dt, 2),
                    "process_gone": gone(pid), "child_gone": None if cpid is None else gone(cpid),
-                   "ok": so.result == want and not left and gone(pid) and (cpid is None or gone(cpid))
-                   and (want is unsat or (so.returncode == 124 and dt < 10))}
+                   "child_counts": bool(child_counts),
+                   "ok": so.result == want and not left and gone(pid) and (not child_counts or gone(cpid))
+                   and (want is unsat or (so.returncode == 124 and dt < tmo + 8))}
+            if cpid and not gone(cpid):
+                try:
+                    os.kill(cpid, 9)
+                except OSError:
+                    pass
             ctx.solving_ctx.executor.shutdown(wait=False)
             out["cases"].append(rec)
     except Exception:
@@ -375,6 +445,11 @@ def do_replay_file(run, path):
     m = extract(SRC, Scenario.from_json(w["scenario"]))
     rep = run_replay(replay_job(m, w, SRC, probe=True))
     ok, desc = reproduced(w["query"], m, w, rep)
+    run.extra.update(states=sum(len(t.nodes) for t in m.threads),
+                     transitions=sum(len(n.outs) for t in m.threads for n in t.nodes.values()),
+                     traces_validated_against_impl=int(rep.get("status") == "ok"),
+                     explanation="replay of one recorded schedule on the real classes")
+    run.sample({"replayed": path, "reproduced": ok, "real": desc})
     print(f"replay {path}: {'REPRODUCED' if ok else 'not reproduced'} — {desc}")
     if ok:
         run.violation(blob["class"], blob["key"], blob["what"], w)
@@ -388,31 +463,45 @@ def main(run):
         return do_replay_file(run, args.replay)
     tier = run.tier
     tmo = 80 if tier == "quick" else 420
+    DEADLINE[0] = run.t0 + (215 if tier == "quick" else 1650)
     only = set(args.only.split(",")) if args.only else None
     scs = [(s, n) for s, n in scenarios(tier) if not only or s.name in only]
     tasks = []
     if not only or "seq" in only:
         tasks.append(("seq", None))
-    # slow (expected-unsat) queries first so the pool stays busy
-    for sc, N in sorted(scs, key=lambda x: -x[0].J * 100 - x[1]):
-        qs = ["deadlock", "safety"] + (["p3-other", "p3-early", "p3-toctou"] if has_nowait(sc) else [])
-        for q in qs:
-            tasks.append(("query", (sc.to_json(), N, q, tmo)))
+    # vacuity twins / translation validation first, then the class queries that usually are satisfiable (cheap), then
+    # the expected-unsat ones, biggest scenarios first so that the pool stays busy
     for sc, N in scs:
         tasks.append(("scenario", (sc.to_json(), N, tmo)))
-        for v in TV_VARIANTS:
-            tasks.append(("tv", (sc.to_json(), N, v, tmo)))
+        full_tv = tier != "quick" or sc.name in ("j1-race-nowait", "j1-cb-nowait", "j2-earlyexit", "j2-cb-wait",
+                                                 "j3-earlyexit")
+        tasks.append(("tv", (sc.to_json(), min(N, 20), TV_VARIANTS if full_tv else TV_VARIANTS[:2], tmo)))
+    big_first = sorted(scs, key=lambda x: -x[0].J * 100 - x[1])
+    for qs in (["residual"], ["p3-toctou", "p3-early"]):
+        for sc, N in big_first:
+            for q in qs:
+                if q.startswith("p3-") and not has_nowait(sc):
+                    continue
+                tasks.append(("query", (sc.to_json(), N, q, tmo)))
 
     ctx = mp.get_context("fork")
     results = []
     with ctx.Pool(processes=max(2, min(args.jobs, 15))) as pool:
-        for r in pool.imap_unordered(dispatch, tasks):
-            results.append(r)
-            if args.verbose:
-                print("  done", {k: v for k, v in r.items() if k in ("kind", "scenario", "q", "status", "wall")},
-                      flush=True)
+        for rr in pool.imap_unordered(dispatch, tasks):
+            for r in (rr if isinstance(rr, list) else [rr]):
+                results.append(r)
+                if args.verbose:
+                    print("  done", {k: v for k, v in r.items() if k in ("kind", "scenario", "q", "status", "wall")},
+                          flush=True)
 
     scen = {r["scenario"]: r for r in results if r["kind"] == "scenario"}
+    wk = {}
+    for r in results:
+        w = wk.setdefault(r["kind"], [0, 0.0, 0.0])
+        w[0] += 1
+        w[1] += r.get("wall", 0.0)
+        w[2] = max(w[2], r.get("wall", 0.0))
+    run.extra["unit_walls"] = {k: {"units": v[0], "sum_s": round(v[1], 1), "max_s": round(v[2], 1)} for k, v in wk.items()}
     functions, table, tv_total, tv_ok, states, transitions, ce_ok = set(), {}, 0, 0, 0, 0, 0
     # ---- per-scenario: extraction, vacuity, translation validation
     for sc, N in scs:
@@ -438,12 +527,14 @@ def main(run):
                                            f"obligation of this scenario is vacuous at this bound and is not claimed")
         else:
             run.inconc("vacuity", sc.name, "reachability twin undecided")
-        tvs = sorted([x for x in results if x["kind"] == "tv" and x["scenario"] == sc.name],
-                     key=lambda x: TV_VARIANTS.index(x["variant"]))
+        tvs = [dict(r["complete"], variant="complete")] if "complete" in r else []
+        for x in results:
+            if x["kind"] == "tv" and x["scenario"] == sc.name:
+                run.solver_time += x.get("solver_s", 0.0)
+                if x.get("status") == "error":
+                    run.harness_error(f"translation validation {sc.name}: {x['reason']}")
+                tvs += [dict(v, variant=k) for k, v in x["variants"].items()]
         for t in tvs:
-            run.solver_time += t.get("solver_s", 0.0)
-            if t.get("status") == "error":
-                run.harness_error(f"translation validation {sc.name}/{t['variant']}: {t['reason']}")
             if t.get("status") != "sat":
                 continue
             tv_total += 1
@@ -476,8 +567,12 @@ def main(run):
         if st == "unsupported":
             run.inconc(cls, okey, "unsupported: " + r["reason"])
         elif st == "error":
+            if q == "residual":
+                row.pop(q, None)
             run.harness_error(f"{okey}: {r['reason']}")
         elif st == "unsat":
+            if r.get("joint"):
+                row[q] += " (joint query)"
             if q == "deadlock" and scen[name].get("reach-terminal") != "sat":
                 run.inconc(cls, okey, "no terminal state within the step bound: obligation vacuous at this bound")
             else:
@@ -496,8 +591,10 @@ def main(run):
                 run.harness_error(f"{okey}: solver schedule did not reproduce on the real classes ({r['desc']}); "
                                   f"schedule={r['schedule']}")
                 run.inconc(cls, okey, "satisfying schedule not reproduced on the real classes: " + r["desc"])
+        elif st == "skipped":
+            run.inconc(cls, okey, "not attempted: the tier's wall-clock budget was used up (machine overloaded)")
         else:
-            run.inconc(cls, okey, f"solver answered {st} within {tmo}s")
+            run.inconc(cls, okey, f"solver answered {st} within its time limit (<= {tmo}s)")
     # ---- sequential obligation
     for r in results:
         if r["kind"] != "seq":
@@ -516,7 +613,11 @@ def main(run):
                 run.violation("seq-timeout-unknown", "solve_low_level/" + c["case"],
                               f"real solve_low_level with a stub solver exceeding its time limit returned {c}", c)
         run.extra["sequential_cases"] = r["cases"]
-    if tv_total == 0 and scs:
+    unsup = [f"{k}: {v['extract']}" for k, v in table.items() if "extract" in v]
+    if unsup and len(unsup) == len(scs):
+        run.harness_error("the extractor supports no scenario on the current processes.py (every schedule obligation "
+                          "is inconclusive): " + unsup[0])
+    elif tv_total == 0 and scs:
         run.harness_error("translation validation exercised no schedule")
 
     run.functions_encoded = sorted(functions) + ["solve.solve_low_level (sequential, real process)"]
